@@ -68,4 +68,7 @@ func VfC05_BufferReuse() {
 		}
 	}
 	nd.Cover("two-rounds")
+	// after the relays, two users asking for a buffer at the same time never get the same one
+	x, y := getBuffer(), getBuffer()
+	nd.Assert(&x[0] != &y[0], "two simultaneous users never get the same pooled buffer")
 }
